@@ -34,12 +34,14 @@ Report(e, bad) ==
 IsEv(name) == l <= Len(Rec) /\ Rec[l].ev = name
 
 \* a complete, searchable version: what a reader (or a recovery) must find
+\* (a version committed without a build has pending updates: it must demand a build, C06, and nothing more
+\* is asked of its forest)
 CompleteDefects(e, ix, prop) ==
-  (IF e.open # "Ok" THEN {<<prop, "version_does_not_open_" \o e.open>>} ELSE {})
-  \cup (IF ix.meta = NoMeta THEN {<<prop, "no_metadata">>}
-        ELSE {<<prop, "forest_" \o d>> : d \in ForestDefects(ix.nodes, ix.meta.roots, Live(ix), ix.meta.items)})
+  (IF e.open # OpenRes(ix, ix.metric) THEN {<<prop, "open_gives_" \o e.open \o "_for_a_version_that_should_give_" \o OpenRes(ix, ix.metric)>>} ELSE {})
   \cup (IF e.st.problems # <<>> \/ e.st.leafw_bad # 0 THEN {<<prop, "layout_problem">>} ELSE {})
-  \cup {<<prop, "search_" \o d[2]>> : d \in SearchDefects(e.q, ix, ix.nodes, NoSide)}
+  \cup (IF OpenRes(ix, ix.metric) # "Ok" THEN {}
+        ELSE {<<prop, "forest_" \o d>> : d \in ForestDefects(ix.nodes, ix.meta.roots, Live(ix), ix.meta.items)}
+             \cup {<<prop, "search_" \o d[2]>> : d \in SearchDefects(e.q, ix, ix.nodes, NoSide)})
 
 Reset ==
   /\ (IsEv("T.Reset") \/ IsEv("C.Reset"))
